@@ -408,7 +408,9 @@ func runC14Request(c *fw.Ctx, i int) {
 	}
 	defer env.close()
 	env.fetcher = &scriptedFetcher{ip: net.ParseIP("192.0.2.1"), delay: time.Duration(i%3) * time.Millisecond}
-	rs := installResolver(func(addr string) ([]string, error, time.Duration) { return namesFor(addr), nil, time.Duration(len(addr)%3) * 100 * time.Microsecond })
+	rs := installResolver(func(addr string) ([]string, error, time.Duration) {
+		return namesFor(addr), nil, time.Duration(len(addr)%3) * 100 * time.Microsecond
+	})
 	defer rs.restore()
 	env.modelFor = func(k int, e *simEnv) *pathModel {
 		m := flowPath(k, e, 3, true, 100*time.Microsecond)
